@@ -283,6 +283,60 @@ def _run(ix, R):
                 'array profile: the array itself when it has nlayers entries, else interpolation onto nlayers points '
                 '(ascending abscissae), else the log10-pressure interpolant',
                 not why, key='; '.join(why), detail='; '.join(why), loc=f.loc())
+    site = TD + 'file.py::TemperatureFile.__init__'
+    with R.guard('3.file.cols', 'TAB', site, 'file columns'):
+        # the temperatures handed to TemperatureArray come from column temp_col of the file and the pressures from column
+        # press_col: the position of each in the array loadtxt returns is its position in `usecols`
+        f = ix.func(site)
+        fl = mkflow(ix, site)
+        pe = param_env(fl, f, ['fn', 'skip', 'tc', 'pc', 'tu', 'pu'])
+        stmt = ('temperature = column temp_col x factor to K, pressure = column press_col x factor to Pa (each read at the '
+                'position its column number has in usecols)')
+        sup = [e for e in fl.of('call') if e.name == '__init__']
+        if len(sup) != 1 or sup[0].kw.get('tp_array') is None:
+            R.error('3.file.cols', 'TAB', site, stmt, 'the TemperatureArray constructor call was not recognised', loc=f.loc())
+        else:
+            why = []
+            und = []
+            def column_of(rf, unit_par):
+                """(usecols RF, position RF) when rf is loadtxt(..., usecols=U)[:, k] * conversion_factor(unit, ...)"""
+                hits = []
+                for a_ in rf.all_atoms():
+                    at = fl.tab.atoms[a_]
+                    if at.head == 'idx' and isinstance(at.args[0], RF):
+                        la = atom_of(fl, at.args[0])
+                        if la is not None and la.head == 'call' and la.extra and la.extra[0] == 'fn:loadtxt':
+                            kws = dict(zip(la.extra[1:], la.args[len(la.args) - len(la.extra[1:]):]))
+                            hits.append((kws.get('usecols'), at.args[-1] if len(at.args) > 2 else None))
+                return hits
+            from sa.helpers import split_exits
+            for role, kw, colpar in (('temperature', 'tp_array', 'tc'), ('pressure', 'p_points', 'pc')):
+                v = sup[0].kw.get(kw)
+                if v is None:
+                    continue
+                hits = column_of(v, None)
+                for U, k in hits:
+                    ua = atom_of(fl, U) if U is not None else None
+                    if ua is not None and ua.head == 'tuple' and k is not None and k.const() is not None:
+                        kk = int(k.const())
+                        kk = kk if kk >= 0 else len(ua.args) + kk
+                        want = spec(fl, 'int(%s)' % colpar, pe)
+                        if not (0 <= kk < len(ua.args)) or not fl.tab.equal(ua.args[kk], want):
+                            why.append('%s is read from position %d of usecols=%s, which is not column %s' % (
+                                role, kk, fmt(fl, U)[:60], {'tc': 'temp_col', 'pc': 'press_col'}[colpar]))
+                    elif U is not None and U.mentions(lambda a: a.head == 'call' and a.extra and a.extra[0] in ('fn:sorted', 'fn:set')):
+                        why.append('usecols=%s orders the columns by their NUMBER while the %s is read at a fixed position: a '
+                                   'file with the temperature column to the left of the pressure column swaps the two' % (
+                                       fmt(fl, U)[:60], role))
+                    elif ua is not None and ua.head != 'tuple' and k is None:
+                        pass        # a single column
+                    else:
+                        und.append('%s from %s' % (role, fmt(fl, v)[:80]))
+            if und and not why:
+                R.error('3.file.cols', 'TAB', site, stmt, 'not recognised: %s' % und, loc=f.loc())
+            else:
+                R.check('3.file.cols', 'TAB', site, stmt, not why, key='; '.join(w[:90] for w in why), detail='; '.join(why),
+                        loc=f.loc())
     site = TD + 'temparray.py::TemperatureArray.__init__'
     with R.guard('3.array.interp', 'ALG', site, 'array interpolant'):
         # with pressure points: linear in log10(P) between the tabulated points and HELD at the end values outside
